@@ -190,21 +190,25 @@ def leb_index(R):
 
     verify(R, "C19.leb.index", W + "::Instruction.WriteTo", run0, label="no-immediate")
 
-    # two immediates are written in order
-    def run2(ctx):
+    # ---- the remaining writers are verified modularly: WriteInteger is cut by
+    # its contract (ULEB chunk, precondition 0 <= v < 2^32 is the caller's obligation)
+    def two(ctx):
         a, b = ctx.int("a"), ctx.int("b")
         for x in (a, b):
             ctx.assume(x >= 0)
             ctx.assume(x < 2 ** 32)
         out = leb.ChunkIO()
-        with _shimmed():
+        stub = _LebCut()
+        with _cut(stub):
             Instr(_instr("call_indirect"), (a, b)).WriteTo(out)
         atoms = leb.flatten(out)
-        v1, p1, wf1 = leb.udec_stream(atoms, 1)
-        v2, p2, wf2 = leb.udec_stream(atoms, p1)
-        return [("order", z3.And(v1 == a.t, v2 == b.t, p2 == len(atoms), *(wf1 + wf2)))]
+        ok = len(atoms) == 3 and _is_uleb(atoms[1]) and _is_uleb(atoms[2])
+        if not ok:
+            return [("order", z3.BoolVal(False))]
+        return [("order", z3.And(atoms[0] == _instr("call_indirect"), atoms[1].value == a.t, atoms[2].value == b.t)),
+                ("leb-precondition", z3.And(*stub.requires))]
 
-    verify(R, "C19.leb.index", W + "::Instruction.WriteTo", run2, label="two-immediates")
+    verify(R, "C19.leb.index", W + "::Instruction.WriteTo", two, label="two-immediates")
 
     # Local: count then type
     Local = resolve(W + "::Local")
@@ -216,11 +220,13 @@ def leb_index(R):
             ctx.assume(n >= 1)
             ctx.assume(n < 2 ** 32)
             out = leb.ChunkIO()
-            with _shimmed():
+            stub = _LebCut()
+            with _cut(stub):
                 Local(vt, n).WriteTo(out)
             atoms = leb.flatten(out)
-            v, p, wf = leb.udec_stream(atoms, 0)
-            return [("local", z3.And(v == n.t, p == len(atoms) - 1, atoms[-1] == vt.value, *wf))]
+            if not (len(atoms) == 2 and _is_uleb(atoms[0])):
+                return [("local", z3.BoolVal(False))]
+            return [("local", z3.And(atoms[0].value == n.t, atoms[1] == vt.value)), ("leb-precondition", z3.And(*stub.requires))]
 
         verify(R, "C19.leb.index", W + "::Local.WriteTo", runl, label=f"local-{vt.name}")
 
@@ -236,16 +242,27 @@ def leb_index(R):
         ctx.assume(bl < 2 ** 32)
         name = _OpaqueStr("name", leb.Opaque("utf8(name)", bl))
         out = leb.ChunkIO()
-        with _shimmed():
+        stub = _LebCut()
+        with _cut(stub):
             Export(i, name).WriteTo(out)
         atoms = leb.flatten(out)
-        n, p, wf = leb.udec_stream(atoms, 0)
-        ok_name = z3.And(n == bl.t, p < len(atoms)) if p < len(atoms) and isinstance(atoms[p], leb.Opaque) and atoms[p].name == "utf8(name)" else z3.BoolVal(False)
-        kind_ok = atoms[p + 1] == 0 if p + 1 < len(atoms) and not isinstance(atoms[p + 1], leb.Opaque) else z3.BoolVal(False)
-        v, p2, wf2 = leb.udec_stream(atoms, p + 2)
-        return [("export", z3.And(ok_name, kind_ok, v == i.t, p2 == len(atoms), *(wf + wf2)))]
+        if not (len(atoms) == 4 and _is_uleb(atoms[0]) and isinstance(atoms[1], leb.Opaque) and z3.is_expr(atoms[2]) and _is_uleb(atoms[3])):
+            return [("export", z3.BoolVal(False))]
+        return [("export", z3.And(atoms[0].value == bl.t, z3.BoolVal(atoms[1].name == "utf8(name)"), atoms[2] == 0, atoms[3].value == i.t)),
+                ("leb-precondition", z3.And(*stub.requires))]
 
-    verify(R, "C19.leb.index", W + "::Export.WriteTo", rune, label="export")
+    def replay_e(model, clause):
+        return script("""
+            import io, nsl.WebAssembly as W
+            {{dec}}
+            i = {{i}}; name = 'f' + 'é' * 3
+            out = io.BytesIO(); W.Export(i, name).WriteTo(out); bs = out.getvalue()
+            n, p = udec(bs); nm = bs[p:p+n]; kind = bs[p+n]; idx, q = udec(bs, p+n+1)
+            print('export', i, repr(name), '->', bs.hex(), 'decoded', n, nm, kind, idx)
+            if nm != name.encode('utf-8') or kind != 0 or idx != i or q != len(bs): print('REPLAY-CONFIRMED')
+            """.replace("{{dec}}", leb.PY_DECODERS), i=model.get("i", 0))
+
+    verify(R, "C19.leb.index", W + "::Export.WriteTo", rune, replay_e, label="export")
 
     # Table: reftype, limits flag 0, min ; Memory: flag, min[, max]
     Table = resolve(W + "::Table")
@@ -256,11 +273,13 @@ def leb_index(R):
         ctx.assume(n >= 0)
         ctx.assume(n < 2 ** 32)
         out = leb.ChunkIO()
-        with _shimmed():
+        stub = _LebCut()
+        with _cut(stub):
             Table(n).WriteTo(out)
         atoms = leb.flatten(out)
-        v, p, wf = leb.udec_stream(atoms, 2)
-        return [("table", z3.And(atoms[0] == 0x70, atoms[1] == 0, v == n.t, p == len(atoms), *wf))]
+        if not (len(atoms) == 3 and _is_uleb(atoms[2])):
+            return [("table", z3.BoolVal(False))]
+        return [("table", z3.And(atoms[0] == 0x70, atoms[1] == 0, atoms[2].value == n.t)), ("leb-precondition", z3.And(*stub.requires))]
 
     verify(R, "C19.leb.index", W + "::Table.WriteTo", runt, label="table")
 
@@ -271,12 +290,13 @@ def leb_index(R):
             ctx.assume(x < 2 ** 32)
         ctx.assume(hi >= 1)
         out = leb.ChunkIO()
-        with _shimmed():
+        stub = _LebCut()
+        with _cut(stub):
             Memory(lo, hi).WriteTo(out)
         atoms = leb.flatten(out)
-        v, p, wf = leb.udec_stream(atoms, 1)
-        v2, p2, wf2 = leb.udec_stream(atoms, p)
-        return [("memory", z3.And(atoms[0] == 1, v == lo.t, v2 == hi.t, p2 == len(atoms), *(wf + wf2)))]
+        if not (len(atoms) == 3 and _is_uleb(atoms[1]) and _is_uleb(atoms[2])):
+            return [("memory", z3.BoolVal(False))]
+        return [("memory", z3.And(atoms[0] == 1, atoms[1].value == lo.t, atoms[2].value == hi.t)), ("leb-precondition", z3.And(*stub.requires))]
 
     verify(R, "C19.leb.index", W + "::Memory.WriteTo", runm, label="memory-minmax")
 
@@ -285,11 +305,13 @@ def leb_index(R):
         ctx.assume(lo >= 0)
         ctx.assume(lo < 2 ** 32)
         out = leb.ChunkIO()
-        with _shimmed():
+        stub = _LebCut()
+        with _cut(stub):
             Memory(lo).WriteTo(out)
         atoms = leb.flatten(out)
-        v, p, wf = leb.udec_stream(atoms, 1)
-        return [("memory", z3.And(atoms[0] == 0, v == lo.t, p == len(atoms), *wf))]
+        if not (len(atoms) == 2 and _is_uleb(atoms[1])):
+            return [("memory", z3.BoolVal(False))]
+        return [("memory", z3.And(atoms[0] == 0, atoms[1].value == lo.t)), ("leb-precondition", z3.And(*stub.requires))]
 
     verify(R, "C19.leb.index", W + "::Memory.WriteTo", runm0, label="memory-min")
 
@@ -349,6 +371,12 @@ def string(R):
 
 # ---------------------------------------------------------------------------
 # framing of sections and code bodies
+#
+# Modular step: inside the section writers, WriteInteger is *cut by its
+# contract* (proved in C19.leb.unsigned / C19.leb.write for all v in [0,2^32)):
+# the stub checks the precondition 0 <= v < 2^32 as an obligation of the caller
+# and writes the abstract chunk ULEB(v), whose length is uleblen(v) with
+# 1 <= uleblen(v) <= 5.
 
 class _Entry:
     """An entry object whose WriteTo writes one opaque blob of symbolic length."""
@@ -365,31 +393,56 @@ class _Entry:
         return io_.getbuffer()
 
 
-def _frame_goals(atoms, section_id, entries, per_entry_size_prefix=False):
+class _LebCut:
+    """Contract stub for nsl.WebAssembly.WriteInteger."""
+
+    def __init__(self):
+        self.requires = []     # z3 Bools the caller must establish
+        self.facts = []        # what the callee's contract guarantees
+
+    def __call__(self, output, i):
+        t = term(i)
+        self.requires.append(z3.And(t >= 0, t < 2 ** 32))
+        self.facts.append(z3.And(leb.uleblen(t) >= 1, leb.uleblen(t) <= 5))
+        output.write(leb.ULEB(t))
+
+
+def _cut(stub):
+    m = _mod()
+    return patched(m, bytes=sym_bytes, len=leb.sym_len, io=leb.FakeIO, WriteInteger=stub)
+
+
+def _is_uleb(a):
+    return isinstance(a, leb.ULEB)
+
+
+def _frame_goals(atoms, section_id, entries, stub, per_entry_size_prefix=False):
     """[id] ++ uleb(|P|) ++ P  with  P = uleb(count) ++ entries (each optionally size-prefixed)."""
     goals = []
-    if not atoms:
+    if len(atoms) < 3:
         return [("id", z3.BoolVal(False))]
-    goals.append(("id", atoms[0] == section_id if not isinstance(atoms[0], leb.Opaque) else z3.BoolVal(False)))
-    size, p, wf = leb.udec_stream(atoms, 1)
-    payload = atoms[p:]
-    goals.append(("size", z3.And(size == term(leb.atoms_len(payload)), *wf)))
-    cnt, q, wf2 = leb.udec_stream(atoms, p)
-    goals.append(("count", z3.And(cnt == len(entries), *wf2)))
-    pos = q
+    goals.append(("id", atoms[0] == section_id if z3.is_expr(atoms[0]) else z3.BoolVal(False)))
+    payload = atoms[2:]
+    goals.append(("size", atoms[1].value == term(leb.atoms_len(payload)) if _is_uleb(atoms[1]) else z3.BoolVal(False)))
+    goals.append(("count", atoms[2].value == len(entries) if _is_uleb(atoms[2]) else z3.BoolVal(False)))
+    pos = 3
     ok = True
     conj = []
     for e in entries:
         if per_entry_size_prefix:
-            bs, pos, wf3 = leb.udec_stream(atoms, pos)
-            conj += wf3
-            conj.append(bs == e.blob.length.t)
+            if pos < len(atoms) and _is_uleb(atoms[pos]):
+                conj.append(atoms[pos].value == e.blob.length.t)
+                pos += 1
+            else:
+                ok = False
+                break
         if pos < len(atoms) and atoms[pos] is e.blob:
             pos += 1
         else:
             ok = False
             break
     goals.append(("entries", z3.And(z3.BoolVal(ok and pos == len(atoms)), *conj)))
+    goals.append(("leb-precondition", z3.Implies(z3.And(*stub.facts), z3.And(*stub.requires))))
     return goals
 
 
@@ -404,7 +457,8 @@ _SECTIONS = [
 
 @family("C19.frame", props=["C19", "C07"],
         functions=[W + f"::{s}.WriteTo" for s, _, _, _ in _SECTIONS] + [W + "::FunctionSection.WriteTo", W + "::Code.Encode"],
-        assumptions=[SHIMS, "entries are opaque blobs of unconstrained symbolic byte length; 0..3 entries per section are executed (the entry loop body is the same code for every entry)"])
+        assumptions=[SHIMS, "modular cut: WriteInteger is replaced by its contract (proved by C19.leb.unsigned/C19.leb.write on [0,2^32)) inside the section writers; its precondition is an obligation of the writer",
+                     "entries are opaque blobs of unconstrained symbolic byte length (< 2^28 each); the entry loop is executed for 0..3 entries (same loop body for every entry; entry count is the only bounded parameter)"])
 def frame(R):
     """Each section writer appends nothing, or [id] ++ uleb(|payload|) ++ payload with payload = uleb(count) ++ entries;
     each code body is uleb(|body|) ++ body."""
@@ -422,13 +476,14 @@ def frame(R):
                     entries.append(e)
                     getattr(sec, add)(e)
                 out = leb.ChunkIO()
-                with _shimmed():
+                stub = _LebCut()
+                with _cut(stub):
                     sec.WriteTo(out)
                 atoms = leb.flatten(out)
+                real_id = getattr(cls, "sectionId", None)
                 if k == 0 and not atoms:
                     return [("empty-omitted", z3.BoolVal(True))]
-                real_id = getattr(cls, "sectionId", None)
-                g = _frame_goals(atoms, sid, entries, prefixed)
+                g = _frame_goals(atoms, sid, entries, stub, prefixed)
                 g.append(("section-id-constant", z3.BoolVal(real_id == sid)))
                 return g
 
@@ -449,6 +504,8 @@ def frame(R):
                         size, p = udec(bs, 1); cnt, q = udec(bs, p)
                         print({{sname}}, sizes, 'id', bs[0], 'size field', size, 'actual payload', len(bs) - p, 'count', cnt)
                         if size != len(bs) - p or cnt != len(sizes): print('REPLAY-CONFIRMED')
+                    elif sizes:
+                        print({{sname}}, 'wrote nothing for', sizes); print('REPLAY-CONFIRMED')
                     """.replace("{{dec}}", leb.PY_DECODERS), sname=sname, add=add, sizes=sizes)
 
             verify(R, f"C19.frame.{sname}", W + f"::{sname}.WriteTo", run, replay, label=f"{k}-entries")
@@ -466,21 +523,19 @@ def frame(R):
                 idx.append(i)
                 sec.AddFunction(i)
             out = leb.ChunkIO()
-            with _shimmed():
+            stub = _LebCut()
+            with _cut(stub):
                 sec.WriteTo(out)
             atoms = leb.flatten(out)
             if k == 0 and not atoms:
                 return [("empty-omitted", z3.BoolVal(True))]
+            if len(atoms) != 3 + k or not all(_is_uleb(a) for a in atoms[1:]):
+                return [("shape", z3.BoolVal(False))]
             goals = [("id", atoms[0] == 3)]
-            size, p, wf = leb.udec_stream(atoms, 1)
-            goals.append(("size", z3.And(size == len(atoms) - p, *wf)))
-            cnt, q, wf2 = leb.udec_stream(atoms, p)
-            goals.append(("count", z3.And(cnt == k, *wf2)))
-            conj = []
-            for i in idx:
-                v, q, wf3 = leb.udec_stream(atoms, q)
-                conj += wf3 + [v == i.t]
-            goals.append(("entries", z3.And(z3.BoolVal(q == len(atoms)), *conj)))
+            goals.append(("size", atoms[1].value == term(leb.atoms_len(atoms[2:]))))
+            goals.append(("count", atoms[2].value == k))
+            goals.append(("entries", z3.And(*[a.value == i.t for a, i in zip(atoms[3:], idx)])))
+            goals.append(("leb-precondition", z3.Implies(z3.And(*stub.facts), z3.And(*stub.requires))))
             return goals
 
         verify(R, "C19.frame.FunctionSection", W + "::FunctionSection.WriteTo", runf, label=f"{k}-entries")
@@ -489,12 +544,11 @@ def frame(R):
     Code = resolve(W + "::Code")
     Local = resolve(W + "::Local")
     VT = resolve(W + "::ValueType")
-    for nl, ni in ((0, 0), (1, 2), (2, 1)):
+    for nl, ni in ((0, 0), (1, 2), (2, 1), (3, 0)):
         def runc(ctx, nl=nl, ni=ni):
             c = Code()
-            kinds = [VT.i32, VT.f32]
             for j in range(nl):
-                c.AddLocal(Local(kinds[j % 2]))
+                c.AddLocal(Local(VT.i32))
             instrs = []
             for j in range(ni):
                 n = ctx.int(f"n{j}")
@@ -503,21 +557,21 @@ def frame(R):
                 e = _Entry(f"ins{j}", n)
                 instrs.append(e)
                 c.AddInstruction(e)
-            with _shimmed():
+            stub = _LebCut()
+            with _cut(stub):
                 buf = c.Encode()
             atoms = leb.flatten(buf)
-            groups, p, wf = leb.udec_stream(atoms, 0)
-            # walk the declared groups, summing their counts
-            total = z3.IntVal(0)
-            conj = list(wf)
+            if not atoms or not _is_uleb(atoms[0]):
+                return [("shape", z3.BoolVal(False))]
+            # walk the declared groups: each is ULEB(count) ++ valtype byte
+            p = 1
             g = 0
-            while p < len(atoms) and not isinstance(atoms[p], leb.Opaque) and g < 8 and not (ni == 0 and p == len(atoms) - 1):
-                cnt, p, wf2 = leb.udec_stream(atoms, p)
-                conj += wf2
-                total = total + cnt
-                p += 1   # value type byte
+            total = z3.IntVal(0)
+            while p + 1 < len(atoms) and _is_uleb(atoms[p]):
+                total = total + atoms[p].value
+                p += 2
                 g += 1
-            goals = [("local-groups", z3.And(groups == g, *conj))]
+            goals = [("local-groups", atoms[0].value == g), ("local-total", total == nl)]
             ok = True
             for e in instrs:
                 if p < len(atoms) and atoms[p] is e.blob:
@@ -525,9 +579,8 @@ def frame(R):
                 else:
                     ok = False
             goals.append(("instructions-in-order", z3.BoolVal(ok)))
-            goals.append(("end-opcode", z3.BoolVal(p == len(atoms) - 1) if p < len(atoms) and not isinstance(atoms[p], leb.Opaque) and ok else z3.BoolVal(False)))
-            if p < len(atoms) and not isinstance(atoms[p], leb.Opaque):
-                goals.append(("end-byte", atoms[p] == 0x0B))
+            goals.append(("end-opcode", z3.And(z3.BoolVal(p == len(atoms) - 1), atoms[p] == 0x0B) if p < len(atoms) and z3.is_expr(atoms[p]) else z3.BoolVal(False)))
+            goals.append(("leb-precondition", z3.Implies(z3.And(*stub.facts), z3.And(*stub.requires))))
             return goals
 
         verify(R, "C19.frame.Code", W + "::Code.Encode", runc, label=f"{nl}-locals,{ni}-instrs")
